@@ -36,6 +36,9 @@ CHECKS = {
         "level_note": "Trusted: SSA->SMT executor, encoding/json dispatch model, z3. Bounds: string capacity 2/3 (text forms 6/10), metadata <= 1/2, "
                       "collection items <= 1/2, document nesting 1/2-3; well-formedness assumptions are listed in the evidence.",
         "runs": [
+            # translator validation: the repository's own JSON fixtures, engine digest == native digest
+            {"harness": "HarnessFixtures", "grid": {"from": [0, 8, 16, 24, 32, 40, 48, 56]}, "params": {"count": 8},
+             "reach": ["fixtures:done"], "compare": "RT", "replay_reach": 1},
             {"harness": "HarnessC01TextForms", "grid": {"form": [0, 1, 2, 3, 4, 5]}, "params": {"tcap": 6}, "tier": "quick"},
             {"harness": "HarnessC01TextForms", "grid": {"form": [0, 1, 2]}, "params": {"tcap": 10}, "tier": "thorough", "qtimeout": 300},
             {"harness": "HarnessC01Message", "grid": {"doc": [0, 1, 2, 3, 4, 5]}, "params": {"cap": 2, "depth": 1},
@@ -95,6 +98,7 @@ CHECKS = {
         "runs": [
             {"harness": "HarnessC03Server", "grid": {"enccfg": [0, 1, 2, 3], "transport": [0, 1, 2]}, "params": {"depth": 4},
              "reach": ["c03:handshake-returned"], "tier": "quick"},
+            {"harness": "HarnessC03BuildAuth", "grid": {"scheme": [0, 1, 2, 3, 4, 5]}, "reach": ["c03:builder-authenticate-returned"]},
             {"harness": "HarnessC03Server", "grid": {"enccfg": [0, 1, 2, 3], "transport": [0, 1, 2], "authnil": [0, 1]}, "params": {"depth": 6},
              "reach": ["c03:handshake-returned"], "tier": "thorough"},
         ],
@@ -213,6 +217,8 @@ CHECKS = {
         "level_note": "Trusted: SSA->SMT executor, z3; TLS itself is a stub (SetEncryption records the switch). Bounds: script depth 4 / 6.",
         "runs": [
             {"harness": "HarnessC08Client", "params": {"depth": 4}, "reach": ["c09:client-got-confirmation"]},
+            # transport level: tcpTransport.SetEncryption over a TLS stub (not replayable natively: real TLS needs a real peer)
+            {"harness": "HarnessC09TCPEncryption", "reach": ["c09:upgraded", "c09:handshake-failed"], "replay_reach": 0},
             {"harness": "HarnessC09Server", "grid": {"enccfg": [0, 1, 2, 3], "transport": [0, 1, 2]}, "params": {"depth": 4}, "skip": INSANE,
              "reach": ["c09:handshake-returned"], "tier": "quick"},
             {"harness": "HarnessC09Server", "grid": {"enccfg": [0, 1, 2, 3], "transport": [0, 1, 2], "setfails": [0, 1]}, "params": {"depth": 6}, "skip": INSANE,
@@ -253,11 +259,12 @@ CHECKS = {
             {"harness": "HarnessC12Write", "params": {"len": 3, "timeouts": 2}, "reach": ["c12:write-succeeded"], "tier": "quick"},
             {"harness": "HarnessC12Read", "params": {"len": 3, "timeouts": 2}, "reach": ["c12:read-succeeded"], "tier": "quick"},
             {"harness": "HarnessC12Send", "params": {"sends": 2, "timeouts": 2}, "reach": ["c12:send-returned"], "tier": "quick"},
-            {"harness": "HarnessC12Receive", "grid": {"cancel": [0, 1]}, "params": {"frames": 2, "timeouts": 1, "frag": 1}, "reach": ["c12:received-one"], "tier": "quick"},
+            {"harness": "HarnessC12Receive", "grid": {"cancel": [0, 1], "kind0": [0, 1, 2, 3, 4, 5]}, "params": {"frames": 2, "timeouts": 1, "frag": 1},
+             "reach": ["c12:received-one"], "tier": "quick"},
             {"harness": "HarnessC12Write", "grid": {"len": [4, 5]}, "params": {"timeouts": 3}, "reach": ["c12:write-succeeded"], "tier": "thorough"},
             {"harness": "HarnessC12Read", "params": {"len": 5, "timeouts": 3}, "reach": ["c12:read-succeeded"], "tier": "thorough"},
             {"harness": "HarnessC12Send", "params": {"sends": 3, "timeouts": 3}, "reach": ["c12:send-returned"], "tier": "thorough"},
-            {"harness": "HarnessC12Receive", "grid": {"garbage": [0, 1], "cancel": [0, 1]}, "params": {"frames": 2, "timeouts": 2, "frag": 2}, "reach": ["c12:received-one"], "tier": "thorough"},
+            {"harness": "HarnessC12Receive", "grid": {"garbage": [0, 1], "cancel": [0, 1], "kind0": [0, 1, 2, 3, 4, 5]}, "params": {"frames": 2, "timeouts": 2, "frag": 2}, "reach": ["c12:received-one"], "tier": "thorough"},
         ],
         "bounds": {"quick": {"buffer": 3, "timeouts": 2, "frames": 2, "fragments": 1}, "thorough": {"buffer": 5, "timeouts": 3, "frames": 2, "fragments": 2}},
         "out": ["json.Encoder/Decoder internals", "a Read that returns data and an error", "the TLS record layer"],
